@@ -23,6 +23,15 @@ claimed["C10"] = dict(
          "(quick N=6, thorough N=8).",
     design="5 C10", technique="bounded symbolic execution of go/ssa + SMT (z3, QF_BV), differential against grammar recogniser, native replay")
 
+claimed["C01"] = dict(
+    text="Bounded symbolic execution of the real Router.Lookup (roots.lookup, lookupByDomain, lookupByPath, StripHostPort, "
+         "net.SplitHostPort) from go/ssa on routers built by the real Handle code from a fixed corpus of route sets, against "
+         "an independent uncompressed-trie priority-DFS reference: for every Host and every path (full byte alphabet) within "
+         "the length bounds the selected route, the parameter names/order/values and substitute-back equality are those the "
+         "documented rules prescribe, and no panic is reachable. Exhaustive over requests within the bound for each corpus "
+         "set; route sets outside the corpus are outside the claim.",
+    design="5 C01", technique="bounded symbolic execution of go/ssa + SMT (z3, QF_BV), differential against reference matcher, native replay")
+
 reasons = {}
 
 ids = [json.loads(l)["id"] for l in open("/verif/properties.jsonl")]
